@@ -90,15 +90,16 @@ PROPS["C07"] = dict(
 )
 PROPS["C13"] = dict(
     level_text="Machine-checked proofs (Lean 4) about the models of modelcount_naive / var_dependencies / Bdd::interpretations / the impact measures on the proved store: "
-               "models(t)*2^|vs| = #sat*2^depth (C13.models_exact_ratio), dependency set = essential variables (deps_are_essential), impact measures count exactly those "
-               "(passive_counts_dependents, active_counts_dependencies), path cubes sound / covering where the goal variable has the goal value / pairwise disjoint, none for "
-               "terminals (cubes_*), more_models iff models >= counter-models (repaired D4). Tie to the code: every issued handle of generated operation sequences is queried on "
-               "the real Bdd (paths naive+memo, models naive+memo, depth, dependencies, impacts, cubes) and compared with the model's answers and with a specification computed "
-               "from truth tables alone (satisfying-assignment counts, canonical-diagram path counts and depth, essential variables, cube clause by enumeration of all assignments).",
-    level_note="Trusted: Lean kernel + standard axioms (Counts.lean imports Mathlib.Tactic.Ring for one arithmetic lemma); usize modelled as Nat (depth <= 63 in the tie); "
-               "path-count and depth clauses are compared with an executable truth-table specification (not yet a theorem: counter-model ratio, paths and depth theorems are the next extension); "
-               "correspondence is differential over generated sequences (<= 7 variables).",
-    technique="Lean 4 proof (induction on the diagram, Shannon counting) + correspondence check against model and truth-table specification",
+               "models(t)*2^|vs| = #sat*2^depth and the same for counter-models, cmodels + models = 2^depth (C13.models_exact_ratio, cmodels_exact_ratio, counts_total); path counts = numbers of "
+               "root-to-bottom / root-to-top paths of the unfolding, none twice (paths_exact); depth = length of a longest path (depth_exact); dependency set = essential variables "
+               "(deps_are_essential), impact measures count exactly those (passive_counts_dependents, active_counts_dependencies); path cubes sound / covering where the goal variable has the goal "
+               "value / pairwise disjoint, none for terminals (cubes_*); more_models iff models >= counter-models (repaired D4); and the executable truth-table specification means what it says "
+               "(counts_vs_truth_table: TT.sat / TT.unsat / TT.deps of a truth table representing the diagram's function). Memoised = naive wherever documented is C12's theorem. "
+               "Tie to the code: every issued handle of generated operation sequences is queried on the real Bdd (paths naive+memo, models naive+memo, depth, dependencies, impacts, cubes) and "
+               "compared with the model's answers and with the truth-table specification.",
+    level_note="Trusted: Lean kernel + standard axioms (Counts.lean imports Mathlib.Tactic.Ring for arithmetic); usize modelled as Nat (depth <= 63 in the tie); TT.depth / TT.paths (canonical-diagram "
+               "measures computed from the function) are executable specification without a linking theorem; correspondence is differential over generated sequences (<= 7 variables).",
+    technique="Lean 4 proof (induction on the diagram, Shannon counting, path enumeration) + correspondence check against model and truth-table specification",
     jobs=[Job("bdd", 1500, 60000, size=6, size_thorough=7,
               relevant=heads("q", "cubes", "cubecheck", "impact"), nontrivial=nt_bdd)],
     rule="operation sequences as for C06; for EVERY issued handle: paths/models (naive and memoised), depth, dependencies, more_models; path cubes for random (goal, goal variable); "
@@ -286,6 +287,30 @@ PROPS["C15"] = dict(
          "(missing terminator / trailing garbage / unbalanced bracket / wrong arity / unknown connective / leading blank), every 10th ADF an export-twice-then-import run; "
          "non-trivial = distinct ADF with >= 2 statements",
     assumptions=["flags a mode does not implement print nothing there (reading fixed in DESIGN.md section 5)"],
+)
+
+
+ALL12 = [f"{c}-v{v}-f{f}" for c in ("off", "paths", "models") for v in (0, 1) for f in (0, 1)]
+PROPS["C12"] = dict(
+    level_text="Machine-checked proof (Lean 4): BOTH bodies of every cfg split of obdd.rs are modelled (FeatureVariants: Cfg, nodeC, restrictC with the variable-list shortcut, iteCfg, the incrementally "
+               "maintained dependency table, the ad-hoc count bookkeeping in node, modelcount_memoization, max_depth, new, fix_import) and proved equal to the reference model: same handles and node "
+               "tables for every operation sequence under every feature set (C12.node_tables_feature_independent, node_tables_agree, restrict_/ite_/node_feature_independent), dependency table = "
+               "recursive dependencies (deps_table_exact, var_dependencies_feature_independent), paths ad hoc = memoised = naive, models ad hoc = naive and memoised = naive except the DOCUMENTED "
+               "exception adhoccounting without adhoccountmodels (models_feature_independent, models_exception), cached = recursive depth for the repaired body and the negation for the unrepaired one "
+               "(max_depth_feature_independent, d3_unrepaired_wrong: D3), invariants established by new / fix_import; headline answers_feature_independent. Tie to the code: the SAME harness is "
+               "built against /repo/lib under several feature sets (quick: none / default / all; thorough: all 12 combinations) and each build's stream (diagram operations and queries, all ADF "
+               "semantics, both searches, call histories, audit of the real memo/count/dependency tables through the hook) is compared with the ONE model and the specification.",
+    level_note="Trusted: Lean kernel + standard axioms; ite memo tables of two runs are related by IteAgree (holds along any two runs); frontend is a flag that touches no table (streaming itself is C19); "
+               "bin/Cargo.toml feature pass-through is exercised only for the default CLI build (C15).",
+    technique="Lean 4 proof (simulation between feature-variant bodies and the reference store) + 3-way / 12-way correspondence of differently built binaries against one model",
+    jobs=[Job("bdd", 600, 15000, size=6, fsets=("none", "default", "all"), fsets_thorough=ALL12, relevant=None, nontrivial=nt_bdd, label="bdd"),
+          Job("adf", 300, 6000, size=5, size_thorough=6, extra=("sem",), fsets=("none", "default", "all"), fsets_thorough=ALL12, relevant=None, nontrivial=nt_adf, label="adf-sem"),
+          Job("adf", 200, 4000, size=5, size_thorough=6, extra=("count",), fsets=("none", "default", "all"), fsets_thorough=ALL12, relevant=None, nontrivial=nt_adf, label="adf-count"),
+          Job("adf", 150, 3000, size=5, size_thorough=6, extra=("ng",), fsets=("none", "default", "all"), fsets_thorough=ALL12, relevant=None, nontrivial=nt_adf, label="adf-ng", timeout=300),
+          Job("adf", 150, 3000, size=5, extra=("hist",), fsets=("none", "default", "all"), fsets_thorough=ALL12, relevant=None, nontrivial=nt_adf, label="adf-hist")],
+    rule="the generated streams of the diagram family and of the ADF family (profiles sem, count, ng, hist) are executed by harness binaries built with different cargo feature sets of adf_bdd and each "
+         "compared with the one Lean model (handle-exact) and the specification; non-trivial = distinct case per (family, feature set) creating >= 3 inner nodes resp. ADF with >= 2 statements and >= 5 nodes",
+    assumptions=["the documented exception (memoised model counting with adhoccounting but without adhoccountmodels) is excluded from the comparison and stated as its own lemma"],
 )
 
 
@@ -512,7 +537,7 @@ def decide(prop, tier, seed, cfg, proof, results, build_fail, known, extra_res, 
     evaluations = sum(r["cases"] for r in results) + (extra_res or {}).get("evaluations", 0)
     nontriv = set()
     for r in results:
-        nontriv |= {(r["job"].label, h) for h in r["nontrivial"]}
+        nontriv |= {(r["job"].label, r["fset"], h) for h in r["nontrivial"]}
     distinct_nontrivial = len(nontriv) + (extra_res or {}).get("distinct_nontrivial", 0)
     samples = []
     for r in results:
@@ -597,12 +622,17 @@ def setup():
         print(out[-3000:])
         return 1
     R.log(f"lake build ok ({time.time() - t0:.0f} s)")
-    for fset in ("default",):
+    for fset in ("default", "none", "all"):
         ok, err = R.build_harness(fset)
         if not ok:
             print(err)
             return 1
     R.log(f"harness built ({time.time() - t0:.0f} s)")
+    ok, err = R.build_repo_bins()
+    if not ok:
+        print(err)
+        return 1
+    R.log(f"adf-bdd and adf-bdd-server built ({time.time() - t0:.0f} s)")
     return 0
 
 
